@@ -1340,8 +1340,16 @@ class WeightedSumSamplingOperator(Operator):
 
     def _call(self, x):
         """Sum all values if indices are given multiple times."""
-        y = np.bincount(self._indices_flat, weights=x,
-                        minlength=self.range.size)
+        x_arr = np.asarray(x)
+        if np.iscomplexobj(x_arr):
+            # `np.bincount` only supports real weights
+            y = (np.bincount(self._indices_flat, weights=x_arr.real,
+                             minlength=self.range.size) +
+                 1j * np.bincount(self._indices_flat, weights=x_arr.imag,
+                                  minlength=self.range.size))
+        else:
+            y = np.bincount(self._indices_flat, weights=x_arr,
+                            minlength=self.range.size)
 
         out = y.reshape(self.range.shape)
 
